@@ -117,6 +117,15 @@ func childMain() {
 			}
 		}
 	}()
+	ppid := os.Getppid()
+	go func() { // a child whose parent is gone (killed by an outer time limit) must not stay behind, least of all spinning in a hanging decoder
+		for {
+			time.Sleep(500 * time.Millisecond)
+			if os.Getppid() != ppid {
+				os.Exit(3)
+			}
+		}
+	}()
 	in := bufio.NewReaderSize(os.Stdin, 1<<20)
 	out := bufio.NewWriterSize(os.Stdout, 1<<16)
 	for {
@@ -138,13 +147,13 @@ func childMain() {
 func childCase(line string) string {
 	f := strings.SplitN(line, " ", 5)
 	if len(f) < 5 {
-		return "?\tbad\t0\t0\t0\tbad request"
+		return "?\tbad\t0\t0\t0\t0\tbad request"
 	}
 	id, name, hx, fis := f[0], f[1], f[2], f[3]
 	budget, _ := strconv.ParseUint(f[4], 10, 64)
 	e := entryByName[name]
 	if e == nil {
-		return id + "\tbad\t0\t0\t0\tunknown entry"
+		return id + "\tbad\t0\t0\t0\t0\tunknown entry"
 	}
 	data := unhex(hx)
 	fi := parseFI(fis)
@@ -154,6 +163,7 @@ func childCase(line string) string {
 		base = heapNow()
 	}
 	a0 := allocNow()
+	cpu0 := selfCPUus()
 	peakHeap.Store(base)
 	baseHeap.Store(base)
 	budgetHeap.Store(budget)
@@ -165,6 +175,9 @@ func childCase(line string) string {
 	sampling.Store(false)
 	ms := time.Since(t0).Milliseconds()
 	peak := peakHeap.Load()
+	if peak > base+(32<<20) {
+		runtime.GC() // the collection of this case's garbage is charged to this case
+	}
 	var delta uint64
 	if peak > base {
 		delta = peak - base
@@ -172,7 +185,16 @@ func childCase(line string) string {
 	if os, _ := overSite.Load().(string); os != "" {
 		detail = detail + "\x1fover=" + os
 	}
-	return fmt.Sprintf("%s\t%s\t%d\t%d\t%d\t%s", id, status, ms, delta, allocNow()-a0, detail)
+	return fmt.Sprintf("%s\t%s\t%d\t%d\t%d\t%d\t%s", id, status, ms, delta, allocNow()-a0, selfCPUus()-cpu0, detail)
+}
+
+// selfCPUus: user+system CPU time of this process so far, in microseconds.
+func selfCPUus() int64 {
+	var ru syscall.Rusage
+	if syscall.Getrusage(syscall.RUSAGE_SELF, &ru) != nil {
+		return 0
+	}
+	return ru.Utime.Sec*1e6 + int64(ru.Utime.Usec) + ru.Stime.Sec*1e6 + int64(ru.Stime.Usec)
 }
 
 func runRecovered(e *Entry, data []byte, fi *FI) (status, detail string) {
